@@ -42,3 +42,42 @@ contract("xdoctest.core:parse_doctestables#glue",
               "parsed exactly once with the definition's own name, its docstring line, the module path and the requested style, and "
               "every doctest found is yielded (debug flag off)",
          sentinel=("skips-docstrings", "True == False"))
+
+
+# ------------------------------------------------------------------------ C07 glue: the modules of a package, one parse each
+contract("xdoctest.core:_rectify_to_modpath", params={"modpath_or_name": "str"}, returns="str", trusted=True, log=False,
+         raises={"Exception*?": None}, note="T: a module name or path to a path (C17)")
+contract("xdoctest.static_analysis:package_modpaths#list",
+         params={"pkgpath": "str", "with_pkg": "bool", "with_mod": "bool", "followlinks": "bool", "recursive": "bool", "with_libs": "bool",
+                 "check": "bool"},
+         returns="list[str]", trusted=True, raises={"Exception*?": None},
+         note="the caller's view of the generator package_modpaths (its own contract: contracts/static_analysis.py): the module paths of a package")
+contract("xdoctest.core:parse_calldefs", params={"module_identifier": "str", "analysis": "Val"}, returns="Optional[CallDefs]", trusted=True,
+         raises={"SyntaxError?": None, "Exception*?": None},
+         note="assumed here: the collected definitions of one module (static visitor under contract; dynamic analysis external)")
+contract("xdoctest.utils.util_import:modpath_to_modname#name",
+         params={"modpath": "str", "hide_init": "bool", "hide_main": "bool", "check": "bool", "relativeto": "None"}, returns="str", trusted=True,
+         log=False, raises={"ValueError?": None}, note="T here (C17)")
+
+_PC = "ev_arg('parse_calldefs', 0, '%s')"
+contract("xdoctest.core:package_calldefs#glue",
+         params={"pkg_identifier": "str", "exclude": "list[str]", "ignore_syntax_errors": "bool", "analysis": "Val"},
+         raises={"Exception*?": None},
+         loops={0: LoopSpec(header="identifiers", invariants=[], modifies=[],
+                            body_post=[("a-module-is-analysed-at-most-once-and-yielded-with-its-own-path",
+                                        "ev_count('parse_calldefs') <= 1 and "
+                                        "implies(ev_count('parse_calldefs') == 1, " + _PC % "module_identifier" + " == module_identifier and "
+                                        + _PC % "analysis" + " is analysis) and "
+                                        "ev_count('yield') == (1 if (ev_count('parse_calldefs') == 1 and ev_outcome('parse_calldefs', 0) == 'normal' "
+                                        "and " + _PC % "result" + " is not None) else 0)"),
+                                       ("only-excluded-or-missing-modules-are-passed-over",
+                                        "implies(ev_count('parse_calldefs') == 0, "
+                                        "any(S.fnmatch(modname, pat) for pat in exclude) or not S.fs_exists(module_identifier))")])},
+         props=["C07"],
+         opts={"native": False,
+               "use": {"xdoctest.static_analysis:package_modpaths": "xdoctest.static_analysis:package_modpaths#list",
+                       "xdoctest.utils.util_import:modpath_to_modname": "xdoctest.utils.util_import:modpath_to_modname#name"}},
+         note="for a package given by name or path (not a live module): every module path of the package, in order, is analysed exactly "
+              "once -- unless its module name matches an exclude pattern or the file does not exist -- and its definitions are yielded "
+              "together with that path; a SyntaxError of the module is a warning (or re-raised when asked)",
+         sentinel=("analyses-nothing", "True == False"))
